@@ -255,6 +255,30 @@ def _epoch_stages(M):
                     n.value.id == T and isinstance(n.slice, ast.BinOp) and \
                     isinstance(n.slice.op, ast.BitAnd):
                 stages.setdefault('clip', (i, st, n))
+    if 'clip' not in stages:
+        # the same window applied to every stream before the merge: a loop over `measurements`
+        # that replaces <m>.data by <m>.data[mask] with mask = (index >= a) & (index <= b)
+        for st in M.pre:
+            if not (isinstance(st, ast.For) and isinstance(st.iter, ast.Name) and
+                    st.iter.id == 'measurements' and isinstance(st.target, ast.Name)):
+                continue
+            mv = st.target.id
+            local = {t.id: b.value for b in st.body if isinstance(b, ast.Assign)
+                     for t in b.targets if isinstance(t, ast.Name)}
+            for b in st.body:
+                if not (isinstance(b, ast.Assign) and len(b.targets) == 1 and
+                        norm_text(b.targets[0]) == mv + '.data' and
+                        isinstance(b.value, ast.Subscript)):
+                    continue
+                base = b.value.value
+                if isinstance(base, ast.Attribute) and base.attr == 'loc':
+                    base = base.value
+                mask = b.value.slice
+                if isinstance(mask, ast.Name) and mask.id in local:
+                    mask = local[mask.id]
+                if norm_text(base) == mv + '.data' and isinstance(mask, ast.BinOp) and \
+                        isinstance(mask.op, ast.BitAnd):
+                    stages['clip-streams'] = (-1, st, mask, mv + '.data.index', b)
     return stages
 
 
@@ -294,14 +318,29 @@ def sched_epochs(ctx, which=(FB, FF)):
                why='the +inf sentinel is missing or not appended last: the cursor can run '
                    'past the end of the epoch list, or the sentinel is clipped/sorted away')
         c = stages.get('clip')
+        cs = stages.get('clip-streams')
         okc = False
         why = 'epoch list is not clipped to [start, end]'
-        if c:
-            l, r = c[2].slice.left, c[2].slice.right
+        if c is None and cs is None:
+            # an absent stage is a finding only when nothing in the preamble looks like a window
+            # (a mask built from two comparisons) that this rule failed to read
+            other = [n for st_ in M.pre for n in ast.walk(st_)
+                     if isinstance(n, ast.BinOp) and isinstance(n.op, ast.BitAnd) and
+                     isinstance(n.left, ast.Compare) and isinstance(n.right, ast.Compare)]
+            ctx.need(not other, '%s: a window `%s` is applied before the loop in a form this '
+                                'rule does not read' % (f.name, norm_text(other[0])[:60]
+                                                        if other else ''))
+        if c or cs:
+            if c:
+                l, r = c[2].slice.left, c[2].slice.right
+                lhs_ok = lambda e: isinstance(e, ast.Name) and e.id == T
+            else:
+                l, r = cs[2].left, cs[2].right
+                lhs_ok = lambda e: norm_text(e) == cs[3]
+                c = cs
             ops = []
             for side in (l, r):
-                if isinstance(side, ast.Compare) and len(side.ops) == 1 and \
-                        isinstance(side.left, ast.Name) and side.left.id == T:
+                if isinstance(side, ast.Compare) and len(side.ops) == 1 and lhs_ok(side.left):
                     ops.append((type(side.ops[0]).__name__,
                                 M.clo_pre.text(side.comparators[0], c[1])))
             lows = [x for x in ops if x[0] in ('GtE', 'Gt')]
@@ -601,7 +640,7 @@ def sched_sibling(ctx, report=('feedback', 'feedforward')):
     for M in Ms:
         s = set()
         for k in _epoch_stages(M):
-            s.add('epoch-list stage: ' + k)
+            s.add('epoch-list stage: ' + ('clip' if k == 'clip-streams' else k))
         body = M.loop.body
         if any(isinstance(g, ast.While) for g in M.guards):
             s.add('draining measurement-due loop')
